@@ -67,6 +67,14 @@ def corpus():
         H([{"op": "meta", "topics": [], "plan": {"metas": [m1]}}, _send([[0, 0], [1, 0]], api="direct"),
            {"op": "meta", "topics": [], "plan": {"metas": [_meta([[1, 101, 9092], [2, 112, 9092]], [[0, 1, [[0, 0, 2]]], [0, 0, [[0, 0, 2]]]])]}},
            {"op": "drop", "node": 2}, _send([[0, 0], [1, 0]], api="offset", live_addrs=[[101, 9092], [112, 9092]])]),
+        # a FindCoordinator answer (served by broker 1) re-addresses the KNOWN node 2 (port only / host only): the group
+        # request must be dialled at the address the coordinator lookup named
+        H([{"op": "meta", "topics": [], "plan": {"metas": [m1]}},
+           _send([[0, 0], [1, 0]], api="offset_commit", group=1, coord_default=[0, 2, 102, 9093], bad={"2": "silent"},
+                 live_addrs=[[101, 9092], [102, 9093]])]),
+        H([{"op": "meta", "topics": [], "plan": {"metas": [m1]}}, _send([[0, 0]], api="direct"), {"op": "drop", "node": 2},
+           {"op": "coord", "group": 2, "plan": {"coord_default": [0, 2, 112, 9092], "live_addrs": [[101, 9092], [112, 9092]]}},
+           {"op": "sendcoord", "group": 2, "tag": 9, "plan": {"coord_default": [0, 2, 112, 9092], "live_addrs": [[101, 9092], [112, 9092]]}}]),
         # a KNOWN topic is reported with an error and no partitions: nothing may be sent to its old leader any more
         H([{"op": "meta", "topics": [], "plan": {"metas": [m1]}}, _send([[0, 0], [1, 0]], api="direct"),
            {"op": "meta", "topics": [0], "plan": {"metas": [_meta([[1, 101, 9092], [2, 102, 9092]], [[5, 0, []]])]}},
@@ -171,6 +179,8 @@ def run(ck):
               [G.gen_history(rnd, "mixed") for _ in range(350 * scale)])
     run_batch("hostile-environment histories vs Model.ClientRun.run_ops",
               [G.gen_history(rnd, "chaos") for _ in range(350 * scale)])
+    run_batch("coordinator answers that re-address a known node (same node id, new host/port; with and without a live connection) vs Model.ClientRun.run_ops",
+              [G.gen_coord_readdress_history(rnd) for _ in range(200 * scale)])
     hosts_batch(ck, rnd, 400 * scale)
     O.batch(ck, rnd, 250 * scale, PID)       # overlapping calls, arbitrary interleavings: monitors only (see client_overlap.py)
     if ck.tier == "thorough":
